@@ -42,6 +42,8 @@ def is_none_value(fn, blk, rv):
 
 def run(ctx, rep):
     facts, eff = ctx.facts, ctx.effects
+    from rules import allpanics
+    allpanics.run_scope(ctx, rep, 'C05', 'A5.6', 'in the accounting arithmetic')
     fat = [f for f in facts.fns.values() if f.crate == 'fatfs']
     scope = fat + [f for f in facts.fns.values() if '::controls::' in f.name and '_a5_' in f.name]
 
